@@ -52,8 +52,9 @@ Definition block_keys (c : cfg) (b : blk) : list (list N) :=
 Definition fresh (c : cfg) (m : db) (b : blk) : bool :=
   forallb (fun k => negb (mem k m)) (block_keys c b).
 
-(** the guard of the partial theorem: every coins transaction that has a local effect executed
-    successfully (receipt ExecOk) *)
+(** no coins transaction with a local effect failed.  Not a hypothesis of any theorem any more
+    (Coins.ExecLocal now skips failed transactions like ExecDelLocal does); it only labels the
+    harness streams: runs where it is false are the ones that exercise the receipt test. *)
 Definition local_ok_tx (t : tx) : bool :=
   match coins_target t with None => true | Some _ => t_rty t =? ExecOk end.
 Definition all_local_ok (b : blk) : bool := forallb local_ok_tx (b_txs b).
@@ -79,20 +80,3 @@ Definition entry_eqb (a b : list N * val) : bool := bytes_eqb (fst a) (fst b) &&
 Definition db_eqb (a b : db) : bool := list_eqb entry_eqb a b.
 
 Definition obs_eqb (m1 m2 : db) : bool := db_eqb (norm m1) (norm m2).
-
-(** * known finding 1: a failed coins transfer is added to the receiver total when the block
-      is connected (Coins.ExecLocal ignores the receipt) but not subtracted when it is removed
-      (DriverBase.ExecDelLocal skips failed transactions).  [undo_failed] subtracts exactly those
-      amounts; a run matches the finding when that repairs the difference. *)
-Definition undo_failed_tx (m : db) (t : tx) : db :=
-  match coins_target t with
-  | None => m
-  | Some a =>
-      if t_rty t =? ExecOk then m
-      else match get (coins_key a) m with
-           | Some (VInt z) => put (coins_key a) (VInt (z - t_amount t)) m
-           | _ => m
-           end
-  end.
-Definition undo_failed (m : db) (bs : list blk) : db :=
-  fold_left (fun m b => fold_left undo_failed_tx (b_txs b) m) bs m.
